@@ -453,6 +453,32 @@ pub(crate) fn shape_13() {
     std::mem::forget(s);
 }
 
+/// S14 (C02: "reopening any number of times without writing changes nothing"): a directory with a
+/// deleted key, an overwritten key and a merge output with its hint file; open, reopen, reopen -
+/// after each: both keys read as the reference map, the statistics equal ground truth, no existing
+/// file changed its length, and each open added exactly one new empty data file above every id.
+pub(crate) fn shape_14() {
+    let mut m: Model = [None, None];
+    mfs::__preexisting(dslot(0));
+    mfs::__preexisting(hslot(0));
+    mfs::__preexisting(dslot(1));
+    let (va, vb, vc): (u8, u8, u8) = (kani::any(), kani::any(), kani::any());
+    let (p0, l0) = lay_data(dslot(0), 0, K[1], Some(vb));
+    lay_hint(hslot(0), 0, l0, p0, K[1]);
+    lay_data(dslot(1), 0, K[0], Some(va));
+    lay_data(dslot(1), 0, K[1], Some(vc));
+    lay_data(dslot(1), 0, K[0], None);
+    m[1] = Some(vc);
+    let size0 = data_size();
+    let mut sc = Sc::<{ CHK_READS | CHK_STATS | CHK_MONITOR }>::open(m, u64::MAX, false, T_NONE);
+    assert!(sc.s.w.active_fileid == 2 && data_size() == size0, "[C02] opening a store changed its data or did not start a new file above every id");
+    sc.reopen(u64::MAX, T_NONE);
+    assert!(sc.s.w.active_fileid == 3 && data_size() == size0, "[C02] reopening without writing changed the store");
+    sc.reopen(u64::MAX, T_NONE);
+    assert!(sc.s.w.active_fileid == 4 && data_size() == size0, "[C02] reopening twice without writing changed the store");
+    sc.finish();
+}
+
 /// 3-byte value.
 pub(crate) fn kb3(v: [u8; 3]) -> Bytes {
     let mut d = [0u8; bytes::BCAP];
